@@ -114,7 +114,7 @@ let e2e () = each_line (fun l ->
         Printf.sprintf "%s;%s;%s;%s;%s"
           (match d.St.d_line with Some n -> string_of_int (int_of_nat n) | None -> "EOF")
           (match d.St.d_user with Some u -> runes u | None -> "-")
-          (runes d.St.d_macro) (runes d.St.d_kind) (runes d.St.d_file)) s.St.diags in
+          (runes d.St.d_macro) (runes d.St.d_kind) (runes d.St.d_file)) (St.diagnostics s) in
     let fs = S.concat ";" (L.map (fun (p, c) -> runes p ^ "=" ^ runes c) s.St.files) in
     Printf.printf "OK %s | %s\n" fs (S.concat " " ds))
 
